@@ -1,6 +1,7 @@
 import EaselModel.Containers.KeyhashLemmas
 import EaselModel.Containers.KeyhashBounds
 import EaselModel.Containers.KeyhashApiLemmas
+import EaselModel.Containers.KeyhashFixedLemmas
 import EaselModel.Containers.HeapLemmas
 import EaselModel.Containers.HeapHistory
 import EaselModel.Containers.RedBlackLemmas
@@ -173,6 +174,97 @@ example : run jenkins (create 1 1 1) [.storeStr [7, 0, 9], .lookupStr [7], .look
     = some [.stored false 0, .found 0, .found 0, .stored true 0, .key [7]] := by decide +kernel
 example : HashOK (fun _ _ => 0) := fun _ _ h => h
 end Keyhash
+
+/-! ## Key hash after the repair of `C19:keyhash:embedded-nul` (`KeyhashFixed.lean`: stored keys delimited by their
+offsets — `key_length()`, `key_matches()` — in `Store`, `Lookup` and the re-hash of `key_upsize`)
+
+Which variant the working tree contains is regenerated on every run (`KeyhashVariant.repaired`); the driver runs the matching
+model against the code. For the repaired code the FULL statement of the property holds: no hypothesis on the key bytes. -/
+section KeyhashRepaired
+open Keyhash
+
+/-- FULL STATEMENT: for ANY hash function into `[0, size)`, any initial sizes `> 0`, ANY history over ARBITRARY byte strings
+    (embedded NULs, stored by length or as C strings, in any mixture) the table answers exactly as the insertion-ordered list
+    of distinct keys — new key ↦ next index, known key ↦ duplicate + original index, lookup ↦ index / not found, `Get i` ↦ the
+    i-th key, `Reuse`, `Clone` — across every 8-fold growth and both reallocations, with no out-of-bounds access and no
+    endless chain walk (`none`), and it is undefined exactly where the abstract type is (`Get` of an unassigned index). -/
+theorem keyhash_refines (H : Key → Nat → Nat) (hH : HashOK H) (size kalloc salloc : Nat)
+    (h1 : 0 < size) (h2 : 0 < kalloc) (h3 : 0 < salloc) (ops : List Op) :
+    runF H (create size kalloc salloc) ops = specRun [] ops :=
+  runF_spec hH ops _ [] (invF_create H size kalloc salloc h1 h2 h3)
+
+theorem keyhash_never_faults (H : Key → Nat → Nat) (hH : HashOK H) (size kalloc salloc : Nat)
+    (h1 : 0 < size) (h2 : 0 < kalloc) (h3 : 0 < salloc) (ops : List Op) (hget : ∀ op ∈ ops, ∀ i, op ≠ .get i) :
+    (runF H (create size kalloc salloc) ops).isSome = true := by
+  rw [keyhash_refines H hH size kalloc salloc h1 h2 h3 ops]
+  exact specRun_isSome_of_no_get ops [] hget
+
+theorem keyhash_refines_jenkins (size kalloc salloc : Nat) (h1 : 0 < size) (h2 : 0 < kalloc) (h3 : 0 < salloc) (ops : List Op) :
+    runF jenkins (create size kalloc salloc) ops = specRun [] ops :=
+  keyhash_refines jenkins jenkins_ok size kalloc salloc h1 h2 h3 ops
+
+/-- per operation, on any state related to an abstract key list by the invariant `InvF` (arena = the keys, each followed
+    by one NUL; `key_offset[i]` = where key `i` starts; chains = buckets) — ANY key bytes -/
+theorem keyhash_ops (H : Key → Nat → Nat) (hH : HashOK H) (kh : KH) (keys : List Key) (hi : InvF H kh keys) (key : Key) :
+    (key ∈ keys → storeF H kh key = some (kh, .edup, keys.idxOf key)) ∧
+    (key ∉ keys → ∃ kh', storeF H kh key = some (kh', .ok, keys.length) ∧ InvF H kh' (keys ++ [key])) ∧
+    lookupF H kh key = some (if key ∈ keys then (.ok, keys.idxOf key) else (.enotfound, 0)) ∧
+    (∀ i, getF kh i = keys[i]?) ∧ InvF H (reuse kh) [] ∧ InvF H (clone kh) keys ∧
+    (∃ kh', upsizeF H kh = some kh' ∧ InvF H kh' keys) := by
+  refine ⟨(storeF_spec_full hi hH key).1, fun hm => ?_, lookupF_spec hi hH key, getF_spec hi, reuse_invF hi, clone_invF hi,
+    upsizeF_spec hi hH⟩
+  obtain ⟨kh', a, b, _⟩ := (storeF_spec_full hi hH key).2 hm
+  exact ⟨kh', a, b⟩
+
+/-- `key_length(kh, i)` is the length of key `i`, `key_matches` is equality of byte strings, and the bytes `key_upsize`
+    re-hashes are the key — on every reachable table -/
+theorem keyhash_key_length (H : Key → Nat → Nat) (kh : KH) (keys : List Key) (hi : InvF H kh keys) (i : Nat) (k : Key)
+    (hk : keys[i]? = some k) :
+    keyLen kh i = some (offOf keys i, (k.length : Int)) ∧ (∀ key, keyMatches kh i key = some (decide (key = k))) ∧
+    keyBytes kh i = some k ∧ offOf keys i + k.length + 1 ≤ kh.smem.size := by
+  refine ⟨keyLen_inv hi.arenaOK i k hk, keyMatches_inv hi.arenaOK i k hk, keyBytes_inv hi.arenaOK i k hk, ?_⟩
+  have := offOf_bound keys i k hk
+  have hsz : kh.smem.size = (flat keys).length := by rw [← hi.arena]; simp
+  omega
+
+/-- `esl_keyhash_Get(kh, i)` for an assigned index, read as a C string by a caller who does not know the length: the read
+    stays inside the key's own `length + 1` arena bytes and yields the key up to its first NUL (the whole key iff NUL-free);
+    an index that was never assigned is outside the function's contract (`none`) -/
+theorem keyhash_get_cstring (H : Key → Nat → Nat) (kh : KH) (keys : List Key) (hi : InvF H kh keys) (i : Nat) :
+    get kh i = (keys[i]?).map cstrOf := get_cstr_spec hi i
+
+/-- the `n = -1` calls of the repaired code as written (string hash loop, `n = strlen(key)`, then the buffer code) are the
+    buffer calls on the bytes before the first NUL -/
+theorem keyhash_string_paths_repaired (kh : KH) (k : Key) :
+    lookupStrCF jenkinsStr kh k = lookupF jenkins kh (cstrOf k) ∧
+    storeStrCF jenkinsStr jenkins kh k = storeF jenkins kh (cstrOf k) :=
+  ⟨lookupStrCF_eq jenkins jenkinsStr jenkinsStr_eq kh k, storeStrCF_eq jenkins jenkinsStr jenkinsStr_eq kh k⟩
+
+theorem keyhash_dump_repaired (H : Key → Nat → Nat) (kh : KH) (keys : List Key) (hi : InvF H kh keys) :
+    ∃ d, dump kh = some d ∧ d.nkeys = keys.length ∧ d.hashsize = kh.hashsize ∧
+      d.sn = (keys.map (fun k => k.length + 1)).sum := dumpF_spec hi
+
+/-- no `int` / `uint32_t` overflow while the ABSTRACT content stays below 2^30 keys / arena bytes — any key bytes -/
+theorem keyhash_fields_in_range (H : Key → Nat → Nat) (hH : HashOK H) (size kalloc salloc : Nat)
+    (h1 : 0 < size) (h2 : 0 < kalloc) (h3 : 0 < salloc) (hle : salloc ≤ M31 ∧ kalloc ≤ M31 ∧ size ≤ M31)
+    (ops : List Op) (hfit : FitsRun [] ops) (kh' : KH) (h : finalKhF H (create size kalloc salloc) ops = some kh') :
+    Within kh' ∧ kh'.nkeys ≤ B30 ∧ kh'.smem.size ≤ B30 :=
+  runF_within hH ops _ [] (invF_create H size kalloc salloc h1 h2 h3) hle hfit kh' h
+
+/-- the witness of the former finding, on the repaired code: `"a\0b"` stored by length twice is one key, found again (also
+    after the growth 2 → 16 slots re-hashed it), distinct from `"a"` and from `"a\0c"`; its C-string view is `"a"` -/
+theorem keyhash_embedded_nul_repaired :
+    runF jenkins (create 2 1 1)
+      [.store [0x61, 0, 0x62], .store [0x61, 0, 0x62], .lookup [0x61, 0, 0x62], .lookupStr [0x61], .store [0x61, 0, 0x63], .store [0x61],
+       .store [1], .store [2], .store [3], .store [4], .lookup [0x61, 0, 0x62], .lookup [0x61, 0, 0x63], .lookupStr [0x61, 0, 0x62], .get 0]
+    = some [.stored false 0, .stored true 0, .found 0, .notfound, .stored false 1, .stored false 2,
+            .stored false 3, .stored false 4, .stored false 5, .stored false 6, .found 0, .found 1, .found 2, .key [0x61, 0, 0x62]] ∧
+    (finalKhF jenkins (create 2 1 1) [.store [0x61, 0, 0x62], .store [1], .store [2], .store [3], .store [4], .store [5], .store [6]]).map
+      (fun kh => (kh.hashsize, get kh 0)) = some (16, some [0x61]) := by
+  refine ⟨by decide +kernel, by decide +kernel⟩
+
+example : InvF jenkins (create 3 1 1) [] := invF_create _ _ _ _ (by decide) (by decide) (by decide)
+end KeyhashRepaired
 
 /-! ## Integer heap -/
 section HeapS
